@@ -17,7 +17,8 @@ import (
 func init() {
 	register(&RuleSet{
 		ID: "C11",
-		Explanation: "R11 the upload function around the no-clobber gate of sign/gcsca returns a nil error only behind the gate call or for a key version that already has a manifest entry. " +
+		Explanation: "R12 writer and reader of a manifest-listed certificate object agree on its encoding: the reader (CertificateAuthority.Certificate) hands the object's bytes to x509.ParseCertificate as they are, so the uploader that registers a manifest entry writes the certificate's DER bytes (Certificate.Raw) and no PEM encoding of them on any path (if the reader PEM-decoded, the writer would have to PEM-encode on every path). " +
+			"R11 the upload function around the no-clobber gate of sign/gcsca returns a nil error only behind the gate call or for a key version that already has a manifest entry. " +
 			"R10 existence probes: an in-repo implementation of the storage client's Exists answers a result that can be true only where the error of its probing call is known nil (cannot-tell is not exists). " +
 			"R9 the local storage back end's object writer opens files truncating (a rewritten manifest keeps no stale tail). " +
 			"In sign/gcsca (the only storage-backed authority; localca wraps it). Storage writes are calls of storage/ops.WriteFile (and direct Storage.Writer invokes); a write is the manifest write when its object-name operand is the constant gcsca.ManifestObjectName. " +
@@ -38,6 +39,7 @@ func init() {
 
 func runC11(c *Ctx) {
 	defer c11ExistenceProbes(c)
+	defer c11StoredEncodingAgrees(c)
 	defer c11UploadThroughGate(c)
 	// R9: the local storage back end replaces an object wholly when it is rewritten (a shorter manifest over a longer
 	// one keeps no stale tail): file-opening primitives in the closure of its Writer are truncating.
@@ -877,4 +879,106 @@ func entryFoundAt(b *ssa.BasicBlock, depth int) bool {
 		}
 	}
 	return false
+}
+
+// c11StoredEncodingAgrees is R12: "every key version listed in the manifest resolves to a parseable certificate" needs
+// the writer and the reader of such an object to agree on its encoding. Reader: (*CertificateAuthority).Certificate —
+// do the bytes it parses come through pem.Decode or straight from storage? Writer: every function of sign/gcsca that
+// makes a manifest entry (an uploader) — does the content it hands to the no-clobber gate (or to a raw writer) derive
+// from Certificate.Raw, and does a PEM encoding reach it on any path? The two must match on every site.
+func c11StoredEncodingAgrees(c *Ctx) {
+	reader := c.P.Method("sign/gcsca", "CertificateAuthority", "Certificate")
+	if reader == nil {
+		c.S.Unk("R12", "sign/gcsca.CertificateAuthority.Certificate", "", "the reader of certificate objects was not found")
+		return
+	}
+	sl := flow.NewSlicer(c.P)
+	isPemEnc := func(v ssa.Value) bool {
+		call, ok := v.(*ssa.Call)
+		return ok && (calleeIs(call, "encoding/pem.EncodeToMemory") || calleeIs(call, "encoding/pem.Encode"))
+	}
+	isPemDec := func(v ssa.Value) bool {
+		call, ok := v.(*ssa.Call)
+		return ok && calleeIs(call, "encoding/pem.Decode")
+	}
+	isRaw := func(v ssa.Value) bool {
+		if fa, ok := v.(*ssa.FieldAddr); ok {
+			return flow.IsFieldLoad(fa, "crypto/x509", "Certificate", "Raw")
+		}
+		return flow.IsFieldLoad(v, "crypto/x509", "Certificate", "Raw")
+	}
+	parses := callsIn(reader, func(call ssa.CallInstruction) bool { return calleeIs(call, "crypto/x509.ParseCertificate") })
+	for _, g := range unexportedRegion(reader) {
+		if g != reader {
+			parses = append(parses, callsIn(g, func(call ssa.CallInstruction) bool { return calleeIs(call, "crypto/x509.ParseCertificate") })...)
+		}
+	}
+	if len(parses) == 0 {
+		c.S.Unk("R12", "sign/gcsca.CertificateAuthority.Certificate:parse", c.pos(reader.Pos()), "the reader does not parse the object with x509.ParseCertificate: its encoding expectation is not known")
+		return
+	}
+	readerPEM := false
+	for _, pc := range parses {
+		if sl.Derives(pc.Common().Args[0], isPemDec) {
+			readerPEM = true
+		}
+	}
+	entryPkg := repoPath("proto/certificates")
+	gates := c.gcscaGates()
+	n := 0
+	for _, f := range c.P.RepoFunctions() {
+		if load.RelPkg(f) != "sign/gcsca" || c.isTestFunc(f) || f.Blocks == nil {
+			continue
+		}
+		isStore := func(call ssa.CallInstruction) bool {
+			g := call.Common().StaticCallee()
+			return (g != nil && gates[g]) || c.gcscaIsWrite(call)
+		}
+		allocsEntry := func(g *ssa.Function) bool {
+			for _, b := range g.Blocks {
+				for _, in := range b.Instrs {
+					if al, ok := in.(*ssa.Alloc); ok && namedIs(al.Type(), entryPkg, "GCECertificateManifest_Entry") {
+						return true
+					}
+				}
+			}
+			return false
+		}
+		// the uploader makes the entry itself, or through a helper that only makes entries (writes nothing)
+		makesEntry := allocsEntry(f)
+		for _, call := range callsIn(f, func(ssa.CallInstruction) bool { return true }) {
+			if g := call.Common().StaticCallee(); g != nil && g != f && load.RelPkg(g) == "sign/gcsca" && g.Blocks != nil && allocsEntry(g) && len(callsIn(g, isStore)) == 0 {
+				makesEntry = true
+			}
+		}
+		if !makesEntry {
+			continue
+		}
+		for _, call := range callsIn(f, isStore) {
+			for _, a := range call.Common().Args {
+				st, ok := a.Type().Underlying().(*types.Slice)
+				if !ok {
+					continue
+				}
+				if bt, ok := st.Elem().Underlying().(*types.Basic); !ok || bt.Kind() != types.Byte {
+					continue
+				}
+				n++
+				writerPEM := sl.Derives(a, isPemEnc)
+				der := sl.Derives(a, isRaw)
+				construct := load.FuncName(f) + "→" + callName(call) + ":stored encoding"
+				switch {
+				case !der:
+					c.S.Bad("R12", construct, c.pos(call.Pos()), "the content written for a manifest-listed key version does not derive from the certificate's DER bytes (Certificate.Raw)")
+				case writerPEM != readerPEM && readerPEM:
+					c.S.Bad("R12", construct, c.pos(call.Pos()), "the reader PEM-decodes certificate objects but this uploader stores bare DER")
+				case writerPEM != readerPEM:
+					c.S.Bad("R12", construct, c.pos(call.Pos()), "a PEM encoding reaches the content stored for a manifest-listed key version on some path, but the reader ("+load.FuncName(reader)+") hands the object to x509.ParseCertificate as it is: such an entry does not resolve to a parseable certificate")
+				default:
+					c.S.OK("R12", construct, c.pos(call.Pos()), "uploader and reader agree on the object's encoding", true)
+				}
+			}
+		}
+	}
+	c.S.Floor("R12", "certificate contents written by manifest-entry uploaders of sign/gcsca", 1, n)
 }
